@@ -63,6 +63,7 @@ pub static mut RECORDS: [Option<Record>; 2] = [None, None];   // sorted by start
 pub struct Storage;
 impl Storage {
     pub fn get_earliest_matched_blocks(&self) -> Option<Record> { unsafe { if RECORDS[0].is_some() { RECORDS[0] } else { RECORDS[1] } } }
+    pub fn get_latest_matched_blocks(&self) -> Option<Record> { unsafe { if RECORDS[1].is_some() { RECORDS[1] } else { RECORDS[0] } } }
     pub fn remove_matched_blocks(&self, start: u64) { if admit(Ev::Remove(start)) { unsafe { let mut i = 0; while i < 2 { if let Some(r) = RECORDS[i] { if r.0 == start { RECORDS[i] = None; } } i += 1; } } } }
     pub fn filter_block(&self, b: packed::Block) { if admit(Ev::Filter(b.id, b.body)) { unsafe { if G.nfilt > 0 && b.number < G.last_num { G.out_of_order = true; } G.last_num = b.number; G.nfilt += 1; } } }
     pub fn update_block_number(&self, n: u64) { admit(Ev::BlockNumber(n)); }
